@@ -214,6 +214,7 @@ type World struct {
 	Auto     []AutoLine   `json:"auto,omitempty"`
 	// Decoy entities in shared files (other fields / soils) to exercise file scanning.
 	Decoys   int          `json:"decoys,omitempty"`
+	NoTilFile bool        `json:"notilfile,omitempty"` // no tillage events and no tillage file in the project
 	TightGap bool         `json:"tightgap,omitempty"` // a sowing date / window 1-4 days behind the preceding (latest) harvest
 	// BadEnt adds entities that make a batch line fail with a reported run error
 	// when selected by plotNr / soilId / fcode (C11).
